@@ -10,6 +10,8 @@ use serde_json::{json, Map, Value};
 use std::time::{Duration, Instant};
 
 static DONE: std::sync::atomic::AtomicU64 = std::sync::atomic::AtomicU64::new(0);
+/// layout "steal": thread 2 starts to schedule (and to steal) only when thread 1's unpreemptible coroutine runs
+static GO: std::sync::atomic::AtomicBool = std::sync::atomic::AtomicBool::new(true);
 /// pthread id -> number of the scheduling thread (the monitor's `mon_sig` hook reports pthread ids)
 static PTHREADS: std::sync::Mutex<Vec<(u64, u64)>> = std::sync::Mutex::new(Vec::new());
 
@@ -73,13 +75,21 @@ fn run_scenario(sc: &Value) {
     let shorts = sc["shorts"].as_u64().unwrap_or(0);
     let busy_kind = sc["busy"].as_str().unwrap_or("running").to_string();
     let sig_self = sc["sig_self"].as_bool().unwrap_or(false);
+    // layout "steal" (two threads): thread 1 has the busy coroutine, a quick one and a third one that computes for
+    // 70 ms inside a syscall state (it cannot be preempted); thread 2 has only a quick one. After its first slice
+    // the busy coroutine waits behind the unpreemptible one and is stolen by thread 2, where it must be
+    // preempted just the same.
+    let steal = sc["steal"].as_bool().unwrap_or(false);
+    let busy_ms = sc["busy_ms"].as_f64().unwrap_or(45.0);
+    GO.store(!steal, std::sync::atomic::Ordering::SeqCst);
     rec(json!({"ev": "mreset", "scenario": sc["id"], "threads": threads, "busy": busy_kind}));
     // calibrate: iterations for about 45 ms of computation
     let t0 = Instant::now();
     let probe = 2_000_000u64;
     let _ = checksum(probe);
     let per_ms = probe as f64 / t0.elapsed().as_secs_f64() / 1000.0;
-    let n = (per_ms * 45.0) as u64;
+    let n = (per_ms * busy_ms) as u64;
+    let n_block = (per_ms * 70.0) as u64;
     let expect = checksum(n);
     let mut hs = vec![];
     for th in 1..=threads {
@@ -124,12 +134,27 @@ fn run_scenario(sc: &Value) {
                 }
                 Some(1)
             }));
-            sch.submit_raw_co(busy).expect("submit");
+            if !steal || th == 1 {
+                sch.submit_raw_co(busy).expect("submit");
+            } else {
+                drop(busy);
+            }
             let quick = mk(2, "quick", Box::new(move || {
                 rec(json!({"ev": "quick", "own": th, "co": 2}));
                 Some(2)
             }));
             sch.submit_raw_co(quick).expect("submit");
+            if steal && th == 1 {
+                let blocker = mk(3, "sysblock", Box::new(move || {
+                    let co = SchedulableCoroutine::current().expect("current");
+                    co.syscall((), SyscallName::write, SyscallState::Executing).expect("enter syscall");
+                    GO.store(true, std::sync::atomic::Ordering::SeqCst);
+                    std::hint::black_box(checksum(n_block));
+                    co.running().expect("leave syscall");
+                    Some(3)
+                }));
+                sch.submit_raw_co(blocker).expect("submit");
+            }
             for i in 0..shorts {
                 let c = mk(10 + i, "short", Box::new(move || {
                     std::hint::black_box(checksum(2000));
@@ -143,7 +168,10 @@ fn run_scenario(sc: &Value) {
             // schedulers share the process-wide ready queue and steal from each other: a thread keeps
             // scheduling until every coroutine of every thread has finished
             let t0 = Instant::now();
-            let total = (2 + shorts) * threads;
+            let total = if steal { 4 } else { (2 + shorts) * threads };
+            while steal && th != 1 && !GO.load(std::sync::atomic::Ordering::SeqCst) {
+                std::thread::yield_now();
+            }
             let mut done = 0;
             while DONE.load(std::sync::atomic::Ordering::SeqCst) < total && t0.elapsed() < Duration::from_secs(6) {
                 if let Ok((_, results)) = sch.try_timed_schedule(Duration::from_millis(20)) {
